@@ -367,3 +367,13 @@ func specChunkWireSize(c *chunkPayloadData) int {
 
 //@ func Association.AcceptStream
 //@   at return assert#accept-queue-consulted-before-returning{C08} recvs(a.acceptCh) != old(recvs(a.acceptCh))
+
+// ---- C19: the count of armed expiries of a retransmission timer drops only for a timer that was stopped before it fired ----
+
+//@ func rtxTimer.stop
+//@   at store rtxTimer.pending assert#only-a-timer-stopped-before-firing-is-uncounted{C19} lastBool("(*time.Timer).Stop") && stored == t.pending-1
+//@   ensures#stopped{C19} old(t.state) == rtxTimerStarted ==> t.state == rtxTimerStopped
+
+//@ func rtxTimer.close
+//@   at store rtxTimer.pending assert#only-a-timer-stopped-before-firing-is-uncounted{C19} lastBool("(*time.Timer).Stop") && stored == t.pending-1
+//@   ensures#closed{C19} t.state == rtxTimerClosed
